@@ -1,5 +1,5 @@
 """C12 -- see DESIGN.md section 4, C12."""
-from . import handlers, sqlunits
+from . import handlers, replayunits, sqlunits
 
 LEVEL = "other"
 EXPLANATION = "trace obligations of the real handlers (layer L2) selected by the prefix C12/"
@@ -8,4 +8,4 @@ TRUSTED = []
 
 
 def units(tier):
-    return sqlunits.units_for("C12") + handlers.units_for("C12")
+    return replayunits.units_for("C12") + sqlunits.units_for("C12") + handlers.units_for("C12")
